@@ -38,7 +38,8 @@ func (g *cg) probeOf(v gen.Val) gen.Val {
 func (g *cg) datum() gen.Val {
 	switch g.n(0, 7, "datum") {
 	case 0:
-		return gen.Str(g.pick("s", "x", "msg", ""))
+		// data is passed on verbatim: never treated as a format or template
+		return gen.Str(g.pick("s", "x", "msg", "", "disk 100% full", "%s %d %v", "{} and {0}", "a\nb", "%!"))
 	case 1:
 		return gen.QS(g.pick("qs", "p", "q"))
 	case 2:
